@@ -145,6 +145,59 @@ def check(ctx):
                       if op == "as_float" else "the operation does not preserve the order on that type"),
                    clause="numbers numerically ... in the requested directions")
     ctx.count("order-relevant operations on the sort key", n_ops, 1)
+    # the requested direction is applied: an ascending key is returned as it is, a descending key through exactly one
+    # order reversal (negation or complement)
+    from ..forms import value_cases as _vc
+
+    def _reversals(e):
+        k = 0
+        while True:
+            if isinstance(e, ast.UnaryOp) and isinstance(e.op, (ast.USub, ast.Invert)):
+                k += 1
+                e = e.operand
+            elif isinstance(e, ast.BinOp) and isinstance(e.op, ast.Mult) and any(
+                    isinstance(z, ast.UnaryOp) and isinstance(z.op, ast.USub) and isinstance(z.operand, ast.Constant) and z.operand.value == 1
+                    for z in (e.left, e.right)):
+                k += 1
+                e = e.left if isinstance(e.right, ast.UnaryOp) else e.right
+            else:
+                return k, e
+    n_dirret = 0
+    for rnode, leaf, facts in _vc(key, "return"):
+        k, base = _reversals(leaf)
+        if not isinstance(base, ast.Name):
+            continue
+        asc = ("T", f"{dparam} > 0") in facts or ("T", f"{dparam} == 1") in facts or ("F", f"{dparam} < 0") in facts
+        desc = ("F", f"{dparam} > 0") in facts or ("T", f"{dparam} < 0") in facts or ("T", f"{dparam} == -1") in facts
+        if not (asc or desc):
+            continue
+        n_dirret += 1
+        ok = (asc and k == 0) or (desc and k % 2 == 1)
+        ctx.ob("DIR", key, f"return {norm(leaf)} for {'ascending' if asc else 'descending'} keys", rnode, ok,
+               "ascending keys are returned as they are, descending keys reversed once" if ok else
+               (f"the key of a DESCENDING sort is returned without an order reversal ({norm(leaf)}): dir=-1 sorts ascending" if desc else
+                f"the key of an ASCENDING sort is returned reversed ({norm(leaf)})"), clause="in the requested directions")
+    ctx.count("direction-specific returns of sort_key", n_dirret, 2)
+    # fixed-width string keys: missing values ('') are replaced by a maximal sentinel, so that they sort last when ascending
+    from ..pattern import pstmt as _ps
+    sent = [n for n in body_nodes(key.node) if isinstance(n, ast.Assign) and _ps("_V[_V.is_na()] = _C", n) is not None]
+    from ..dtclass import analyse as _an
+    from ..facts import cfg_node_of as _cn
+
+    def _only_fixed(n):
+        v = _ps("_V[_V.is_na()] = _C", n)["_V"]
+        if not isinstance(v, ast.Name):
+            return False
+        _cfg, IN = _an(key, v.id)
+        nd = _cn(key, n)
+        st = IN.get(nd.id) if nd is not None else None
+        return st is not None and st <= {"SF"}
+    oks = bool(sent) and all(_only_fixed(n) for n in sent) \
+        and all(isinstance(_ps("_V[_V.is_na()] = _C", n)["_C"], ast.Constant) and _ps("_V[_V.is_na()] = _C", n)["_C"].value == "\uffff" for n in sent)
+    ctx.ob("ORD-key", key, norm(sent[0]) if sent else "column[column.is_na()] = '\\uffff' for fixed-width string keys", sent[0] if sent else key.node, oks,
+           "missing strings ('' in a fixed-width column) are keyed by the largest code point, so they sort after every real string" if oks else
+           "fixed-width string keys keep '' for their missing values (or get another sentinel): '' sorts BEFORE every string, so rows "
+           "with a missing key come first in an ascending sort", clause="Rows whose key is missing are placed ... at the end whenever that key is sorted ascending")
     # ------------------------------------------------- GRD / OWN
     n = grd_empty(ctx, [sort], "sorting succeeds for empty frames and entirely missing columns",
                   only=lambda f: f.module.name in ("dataiter.vector", "dataiter.data_frame")
